@@ -246,7 +246,11 @@ type e1Result struct {
 
 // runBatchPipeline generates, compiles (bisecting on failure) and runs the harness.
 // harnessArgs are the arguments of each harness execution (property id first).
-func runBatchPipeline(b *e1Batch, prop string, env []string, runs int) *e1Result {
+// stage2Hook, when set, runs after the harness of a compiled group inside its
+// scratch module and may add records.
+type stage2Hook func(dir string, cases []*e1Case, env []string, recs []map[string]interface{}) []map[string]interface{}
+
+func runBatchPipeline(b *e1Batch, prop string, env []string, runs int, hooks ...stage2Hook) *e1Result {
 	res := &e1Result{}
 	var rec func(cases []*e1Case, name string)
 	rec = func(cases []*e1Case, name string) {
@@ -283,6 +287,12 @@ func runBatchPipeline(b *e1Batch, prop string, env []string, runs int) *e1Result
 			fail("compile", c.Stderr)
 			return
 		}
+		first := len(res.Records)
+		defer func() {
+			for _, hk := range hooks {
+				res.Records = append(res.Records, hk(dir, cases, env, res.Records[first:])...)
+			}
+		}()
 		for k := 0; k < runs; k++ {
 			h := run(dir, 20*time.Minute, env, filepath.Join(dir, "h.bin"), prop)
 			if h.Exit != 0 {
@@ -329,13 +339,13 @@ func head(s string, n int) string {
 }
 
 // runE1 runs all batches in parallel and merges results.
-func runE1(cases []*e1Case, prop string, batchSize int, env []string, runs int) *e1Result {
+func runE1(cases []*e1Case, prop string, batchSize int, env []string, runs int, hooks ...stage2Hook) *e1Result {
 	batches := batchCases(cases, batchSize)
 	total := &e1Result{}
 	var mu sync.Mutex
 	done := 0
 	parDo(len(batches), func(i int) {
-		r := runBatchPipeline(batches[i], prop, env, runs)
+		r := runBatchPipeline(batches[i], prop, env, runs, hooks...)
 		mu.Lock()
 		total.Records = append(total.Records, r.Records...)
 		total.Failures = append(total.Failures, r.Failures...)
